@@ -154,10 +154,11 @@ def run(ck):
         for cs in T.calls(b, name=("take", "replace", "insert", "get_or_insert")):
             if T.path_has(b, cs.args[0], ".source") and "Rc<dyn sources::EventDispatcher" in f.types[cs.args[0].get("m", cs.args[0].get("c", {"t": 0}))["t"]]["s"]:
                 writers.add(b.qual)
-    expected = {"LoopHandle::register_dispatcher", "Async::new", "LoopHandle::remove::{closure#0}", "LoopHandle::remove", "EventLoop::dispatch_events", "<LoopInner as IoLoopInner>::kill"}
-    in_list_module = {w for w in writers if f.by_qual[w][0].file.endswith("list.rs")}
+    writers = {w.split("::{closure")[0] for w in writers}
+    expected = {"LoopHandle::register_dispatcher", "Async::new", "LoopHandle::remove", "EventLoop::dispatch_events", "<LoopInner as IoLoopInner>::kill"}
+    in_list_module = {w for w in writers if f.by_qual.get(w) and f.by_qual[w][0].file.endswith("list.rs")}
     for w in sorted(writers - expected - in_list_module):
-        ck.violation("2", "T7-who-may-write", w, "writes:SourceEntry.source", "a new writer of the slot contents (only insertion, remove(), the Remove post-action and Async teardown may write a slot)", site=f.by_qual[w][0].where())
+        ck.violation("2", "T7-who-may-write", w, "writes:SourceEntry.source", "a new writer of the slot contents (only insertion, remove(), the Remove post-action and Async teardown may write a slot)", site=f.by_qual[w][0].where() if f.by_qual.get(w) else "")
     ck.ok("2", "T7-who-may-write", "<crate>", "writers-of:SourceEntry.source", "writers found: %s" % sorted(writers), site="")
     ck.floor("2", "writers of SourceEntry.source", len((writers & expected) | in_list_module), 4)
 
